@@ -18,9 +18,9 @@ PID = 'C03'
 _RUN = {}
 
 
-# 23 slots (big hand-over twice, forward_jump = -3): 4 hand-over, dispatch, hostile output, count-down, 2 pending return, 2 label table / two labels, 2 self return,
+# 24 slots (big hand-over twice, label table / two labels three times, forward_jump = -3): 4 hand-over, dispatch, hostile output, count-down, 2 pending return, 2 label table / two labels, 2 self return,
 # big hand-over, NaN variants, tiny, general mix (0.87), 2 stack 0 as data (-1), 2 zoo (-2)
-QUOTA = [0.05, -1, 0.15, -2, 0.25, 0.29, 0.35, 0.44, 0.5, 0.58, -1, 0.62, 0.7, -2, 0.75, 0.82, 0.9, 0.95, 0.99, 0.87, 0.84, 0.91, -3]
+QUOTA = [0.05, -1, 0.15, -2, 0.25, 0.29, 0.35, 0.44, 0.5, 0.58, -1, 0.62, 0.7, -2, 0.75, 0.82, 0.9, 0.95, 0.99, 0.87, 0.84, 0.91, -3, 0.72]
 
 
 def _gen(rng, i=None):
